@@ -1,0 +1,74 @@
+//go:build verif
+
+package certmagic
+
+import (
+	"context"
+	"time"
+)
+
+// Verification hooks (build tag "verif" only) for OCSP stapling: thin exported wrappers and
+// read-only snapshots. No existing code is changed.
+
+// VerifCertView is a read-only view of a Certificate's OCSP-related state.
+type VerifCertView struct {
+	Hash       string
+	Names      []string
+	Managed    bool
+	Serial     string // decimal serial number of the leaf ("" if no leaf)
+	Staple     []byte // tls.Certificate.OCSPStaple
+	HasOCSP    bool   // Certificate.ocsp != nil
+	OCSPStatus int
+	OCSPThis   time.Time
+	OCSPNext   time.Time
+	OCSPSerial string
+	OCSPRaw    []byte // Certificate.ocsp.Raw
+}
+
+// VerifViewCert returns the OCSP-related state of cert.
+func VerifViewCert(cert Certificate) VerifCertView {
+	v := VerifCertView{Hash: cert.hash, Names: append([]string(nil), cert.Names...), Managed: cert.managed,
+		Staple: append([]byte(nil), cert.Certificate.OCSPStaple...)}
+	if cert.Certificate.OCSPStaple == nil {
+		v.Staple = nil
+	}
+	if cert.Leaf != nil && cert.Leaf.SerialNumber != nil {
+		v.Serial = cert.Leaf.SerialNumber.String()
+	}
+	if cert.ocsp != nil {
+		v.HasOCSP = true
+		v.OCSPStatus = cert.ocsp.Status
+		v.OCSPThis = cert.ocsp.ThisUpdate
+		v.OCSPNext = cert.ocsp.NextUpdate
+		if cert.ocsp.SerialNumber != nil {
+			v.OCSPSerial = cert.ocsp.SerialNumber.String()
+		}
+		v.OCSPRaw = append([]byte(nil), cert.ocsp.Raw...)
+	}
+	return v
+}
+
+// VerifCacheOCSPSnapshot returns a view of every certificate in the cache.
+func VerifCacheOCSPSnapshot(certCache *Cache) []VerifCertView {
+	certCache.mu.RLock()
+	defer certCache.mu.RUnlock()
+	out := make([]VerifCertView, 0, len(certCache.cache))
+	for _, cert := range certCache.cache {
+		out = append(out, VerifViewCert(cert))
+	}
+	return out
+}
+
+// VerifMakeCertificate exposes makeCertificate (no stapling).
+func VerifMakeCertificate(certPEM, keyPEM []byte) (Certificate, error) {
+	return makeCertificate(certPEM, keyPEM)
+}
+
+// VerifStapleOCSP exposes stapleOCSP.
+func VerifStapleOCSP(ctx context.Context, cfg OCSPConfig, storage Storage, cert *Certificate, pemBundle []byte) error {
+	return stapleOCSP(ctx, cfg, storage, cert, pemBundle)
+}
+
+// VerifUpdateOCSPStaples runs one OCSP maintenance pass (what the maintenance goroutine does on
+// every tick of OCSPCheckInterval).
+func VerifUpdateOCSPStaples(ctx context.Context, certCache *Cache) { certCache.updateOCSPStaples(ctx) }
